@@ -170,7 +170,7 @@ def _registry():
         nd = g.nd((1, 2, 2, 3))
         return dict(f=g.img(g.shape(nd, 2), g.r.choice([np.uint8, np.int32, np.float64])), Bc=g.bc(nd))
     reg('median_filter', C + 'median_filter', filt_gen, lambda f, a: f(a['f'], a['Bc']))
-    reg('rank_filter', C + 'rank_filter', filt_gen, lambda f, a: f(a['f'], a['Bc'], 1))
+    reg('rank_filter', C + 'rank_filter', filt_gen, lambda f, a: f(a['f'], a['Bc'], 0))
     reg('mean_filter', C + 'mean_filter', filt_gen, lambda f, a: f(a['f'], a['Bc']))
     reg('template_match', C + 'template_match', lambda g: dict(f=g.fl(g.shape(2, 3)), template=g.fl((2, 2), 0, 3)),
         lambda f, a: f(a['f'], a['template']))
